@@ -110,6 +110,23 @@ where
         ensure_eq!(next.as_ref(), exp.get(j + 1), format!("{site}/nth_then_next"), "next() after nth({j}) of an iterator with {n} items");
         let rest = n.saturating_sub(j + 1);
         ensure!(hint.0 <= rest && hint.1.map_or(true, |h| h >= rest), format!("{site}/size_hint_after_nth"), "size_hint() after nth({j}) = {hint:?} but {rest} items remain");
+        // every consumer continues from the position nth(j) left, and an iterator that nth() ran off
+        // the end of stays exhausted for all of them
+        let rest_items: &[T] = &exp[(j + 1).min(n)..];
+        let what = format!("after nth({j}) on {n} items");
+        let adv = || {
+            let mut it = mk();
+            it.nth(j);
+            it
+        };
+        let c = no_panic(&format!("{site}/after_nth_count_panic"), &what, || adv().count())?;
+        ensure_eq!(c, rest_items.len(), format!("{site}/after_nth_count"), "count() {what}");
+        let l = no_panic(&format!("{site}/after_nth_last_panic"), &what, || adv().last().map(conv))?;
+        ensure_eq!(l.as_ref(), rest_items.last(), format!("{site}/after_nth_last"), "last() {what}");
+        let z = no_panic(&format!("{site}/after_nth_nth_panic"), &what, || adv().nth(1).map(conv))?;
+        ensure_eq!(z.as_ref(), rest_items.get(1), format!("{site}/after_nth_nth"), "nth(1) {what}");
+        let f: Vec<T> = no_panic(&format!("{site}/after_nth_fold_panic"), &what, || adv().fold(vec![], |mut acc, x| { if acc.len() < n + 2 { acc.push(conv(x)); } acc }))?;
+        ensure_eq!(&f[..], rest_items, format!("{site}/after_nth_fold"), "fold() {what}");
         let sk: Vec<T> = no_panic(&format!("{site}/skip_panic"), &format!("skip({j})"), || mk().skip(j).take(n + 2).map(conv).collect())?;
         ensure_eq!(&sk[..], &exp[j.min(n)..], format!("{site}/skip"), "skip({j}) of an iterator with {n} items");
     }
